@@ -3,6 +3,13 @@ import ast
 
 NORMALISED_ATTRS = {"raw_name", "alias", "uri"}
 NORMALISER = "escape_identifier_name"
+SUBQUERY_FAMILY = {"SubQuery", "SqlFluffSubQuery", "SqlParseSubQuery"}
+ALIAS_TAKERS = {"Table", "SqlFluffTable", "SqlParseTable"} | SUBQUERY_FAMILY
+# a re-wrapped sub-query whose alias is never looked up: the MERGE handler of the sqlparse analyzer wires source columns to
+# `direct_source` by object (src_col.parent = direct_source), no qualifier is resolved against this alias
+LABEL_ONLY_ALIAS_SITES = {
+    ("sqllineage.core.parser.sqlparse.analyzer", "SqlParseLineageAnalyzer._extract_from_dml_merge", "sq.alias"): "the alias of the re-wrapped MERGE source is a label only: columns are attached to the object, never resolved through the alias (probe: quoted mixed-case alias gives the same lineage)",
+}
 MODEL_CTORS = {"Column", "Table", "Schema", "Path", "SqlFluffTable", "SqlParseTable", "SqlFluffColumn", "SqlParseColumn"}
 
 
@@ -37,6 +44,17 @@ def _is_normalised_expr(e, norm_names):
     return None
 
 
+def _joins_normalised_parts(e):
+    """`sep.join(<comprehension whose element is a call of the normaliser>)`, possibly on one branch of a conditional"""
+    if isinstance(e, ast.IfExp):
+        return _joins_normalised_parts(e.body) or _joins_normalised_parts(e.orelse)
+    if isinstance(e, ast.Call) and isinstance(e.func, ast.Attribute) and e.func.attr == "join" and e.args:
+        a = e.args[0]
+        if isinstance(a, (ast.ListComp, ast.GeneratorExp)):
+            return _is_normalised_expr(a.elt, {}) is not None
+    return False
+
+
 def exactly_once(repo, pid="C16"):
     """every identifier is normalised exactly once: the normaliser and the model constructors require RAW text"""
     out = []
@@ -46,11 +64,14 @@ def exactly_once(repo, pid="C16"):
         for qual, fn in _functions(m):
             # one-level dataflow: locals assigned from normalised expressions / loop variables over .source_columns
             norm = {}
+            joined = {}
             for sub in ast.walk(fn):
                 if isinstance(sub, ast.Assign) and len(sub.targets) == 1 and isinstance(sub.targets[0], ast.Name):
                     why = _is_normalised_expr(sub.value, {})
                     if why:
                         norm[sub.targets[0].id] = why
+                    elif _joins_normalised_parts(sub.value):
+                        joined[sub.targets[0].id] = "joined from per-part normalised segments"
                 if isinstance(sub, (ast.For, ast.comprehension)):
                     it = sub.iter
                     src = ast.unparse(it)
@@ -67,6 +88,25 @@ def exactly_once(repo, pid="C16"):
                 if not isinstance(sub, ast.Call):
                     continue
                 callee = sub.func.id if isinstance(sub.func, ast.Name) else (sub.func.attr if isinstance(sub.func, ast.Attribute) else None)
+                # alias arguments: Table / SubQuery constructors and their `of` factories normalise the alias they are given
+                owner = sub.func.value.id if isinstance(sub.func, ast.Attribute) and isinstance(sub.func.value, ast.Name) else None
+                fam = callee if callee in ALIAS_TAKERS else (owner if callee == "of" and owner in ALIAS_TAKERS else None)
+                if fam:
+                    al = [kw.value for kw in sub.keywords if kw.arg == "alias"]
+                    if not al and fam in SUBQUERY_FAMILY and callee == "of" and len(sub.args) >= 2:
+                        al = [sub.args[1]]
+                    if not al and fam in SUBQUERY_FAMILY and callee != "of" and len(sub.args) >= 3:
+                        al = [sub.args[2]]
+                    for a_ in al:
+                        why = _is_normalised_expr(a_, norm)
+                        shown = (owner + "." if callee == "of" else "") + callee
+                        nm = f"{pid}:site:{m.name}:{qual}:{shown}(alias={ast.unparse(a_)})"
+                        if why and (m.name, qual, ast.unparse(a_)) in LABEL_ONLY_ALIAS_SITES:
+                            out.append({"name": nm, "status": "assumed", "detail": f"alias argument is {why}; allow-listed: " + LABEL_ONLY_ALIAS_SITES[(m.name, qual, ast.unparse(a_))], "clause": "normalised_exactly_once", "backend": "syntactic scan (allow-list)", "kind": "K3-site"})
+                        elif why:
+                            out.append({"name": nm, "status": "refuted", "detail": f"second normalisation: alias argument is {why}", "clause": "normalised_exactly_once", "backend": "syntactic scan", "kind": "K3-site"})
+                        else:
+                            out.append({"name": nm, "status": "proved", "detail": "alias argument is raw text or None", "clause": "normalised_exactly_once", "backend": "syntactic scan", "kind": "K3-site"})
                 if callee != NORMALISER and callee not in MODEL_CTORS:
                     continue
                 if not sub.args:
@@ -74,8 +114,8 @@ def exactly_once(repo, pid="C16"):
                 arg = sub.args[0]
                 why = _is_normalised_expr(arg, norm)
                 name = f"{pid}:site:{m.name}:{qual}:{callee}({ast.unparse(arg)})"
-                if why is None and callee == "Schema" and isinstance(arg, ast.Name) and arg.id == "parent_name":
-                    why = "joined from per-part normalised segments"
+                if why is None and isinstance(arg, ast.Name) and arg.id in joined:
+                    why = joined[arg.id]
                 if why:
                     out.append({"name": name, "status": "refuted", "detail": f"second normalisation: argument is {why}", "clause": "normalised_exactly_once", "backend": "syntactic scan", "kind": "K3-site"})
                 else:
